@@ -152,6 +152,20 @@ def _clauses(cc, backend="pandas"):
         out.append(("counts", "error_counts", f"recount={dict(by_reason)} reported={rep['error_counts']}"))
     if rep["n_message_entries"] != len(rep["errors"]):
         out.append(("message_entries", "message", f"entries={rep['n_message_entries']} errors={len(rep['errors'])}"))
+    # the counts clause at the reduced validation depths as well (fewer errors are collected there, from steps that the depth does not
+    # gate -- error_counts must still count exactly what the report carries).  NOT the message clause: the summary in the message
+    # is filtered by depth on purpose, and the property only speaks about the counts.
+    from pandera.config import ValidationDepth, config_context
+
+    for depth in (ValidationDepth.SCHEMA_ONLY, ValidationDepth.DATA_ONLY):
+        with config_context(validation_depth=depth):
+            lz = (O.validate_polars if backend == "polars" else O.validate_pandas)(cc["schema"], cc["table"], lazy=True)
+        if lz["outcome"] != "SchemaErrors":
+            continue
+        r2 = lz["report"]
+        rc = Counter(x["reason"] for x in r2["errors"])
+        if dict(rc) != {k: v for k, v in r2["error_counts"].items() if v}:
+            out.append(("counts", f"error_counts@{depth.name}", f"recount={dict(rc)} reported={r2['error_counts']}"))
     if backend == "pandas" and ref is not None and ref.report_defined and ref.verdict == "REJECT":
         skip = set(ref.unspec_checks) | {(c, None, i) for (c, _col, i) in ref.unspec_checks if c == "MultiIndex"}
 
